@@ -1,6 +1,7 @@
 import Proofs.Lemmas.Template
 /-! Helper lemmas for the end of the time coverage: abstract form of `coverageOf`, sub-day end
-fields, the one-day roll-over. -/
+fields (any of hour / minute / second / millisecond), the roll-over by the superior resolution
+of the coarsest end field. -/
 namespace Template
 open Time Digits
 
@@ -31,71 +32,47 @@ theorem coverageOf_both (path : List Tok) (sa ea : Std) (st en : DateTime)
   simp only [h1, h2, h3, h4, ↓reduceIte]
   rfl
 
-/-- the end fields are sub-day fields including the hour -/
+/-- the end fields are sub-day fields only (at least one of hour, minute, second,
+millisecond; nothing `get_filename` cannot fill) -/
 def SubDay (Q : TField → Bool) : Prop :=
   Q .year = false ∧ Q .year2 = false ∧ Q .month = false ∧ Q .day = false ∧ Q .doy = false ∧
-    Q .hour = true ∧ NoSub Q
+    (Q .hour = true ∨ Q .minute = true ∨ Q .second = true ∨ Q .millisecond = true) ∧ NoSub Q
+
+/-- index of the coarsest end field in `FileSet._temporal_resolution` -/
+def endRank (Q : TField → Bool) : Nat :=
+  if Q .hour then 3 else if Q .minute then 4 else if Q .second then 5 else 8
 
 /-- date and missing fields from the start, the named sub-day fields from `e` -/
 def combine (P Q : TField → Bool) (s e : DateTime) : DateTime :=
-  { y := s.y, mo := s.mo, d := s.d, h := e.h
+  { y := s.y, mo := s.mo, d := s.d
+    h := if Q .hour then e.h else if P .hour then s.h else 0
     mi := if Q .minute then e.mi else if P .minute then s.mi else 0
     s := if Q .second then e.s else if P .second then s.s else 0
     us := if Q .millisecond then 1000 * (e.us / 1000)
           else if P .millisecond then 1000 * (s.us / 1000) else 0 }
 
+/-- the roll-over unit is the next coarser entry of the resolution table above the coarsest end
+field: hour → 1 day, minute → 1 hour, second → 1 minute (millisecond → 10 ms, the code's table) -/
 theorem superior_subday (path : List Tok) (Q : TField → Bool)
     (hQ : ∀ f, path.contains (.ph (.time true f)) = Q f) (h : SubDay Q) :
-    superior path = some (resolution 2) := by
+    superior path = some (resolution (endRank Q - 1)) := by
   obtain ⟨h1, h2, h3, h4, h5, h6, h7, h8, h9⟩ := h
-  unfold superior endRanks allFields
-  simp only [List.filterMap_cons, List.filterMap_nil, hQ, h1, h2, h3, h4, h5, h6, h7, h8, h9,
+  unfold superior endRanks allFields endRank
+  simp only [List.filterMap_cons, List.filterMap_nil, hQ, h1, h2, h3, h4, h5, h7, h8, h9,
     TField.rank, Bool.false_eq_true, ↓reduceIte]
-  cases Q .minute <;> cases Q .second <;> cases Q .millisecond <;> rfl
+  cases hh : Q .hour <;> cases hm : Q .minute <;> cases hs : Q .second <;>
+    cases hms : Q .millisecond <;> first | rfl | (simp [hh, hm, hs, hms] at h6)
 
-theorem mkDate_merge_subday (P Q : TField → Bool) (s e : DateTime) (hvs : Valid s) (hve : Valid e)
-    (hdP : HasDate P) (hq : SubDay Q) :
-    mkDate ((stdOf P s).merge (stdOf Q e)) = .ok (combine P Q s e) := by
-  obtain ⟨q1, q2, q3, q4, q5, q6, _⟩ := hq
-  have hvalid : valid (combine P Q s e) = true := by
-    have hs := (valid_iff s).1 hvs
-    have he := (valid_iff e).1 hve
-    have : Valid (combine P Q s e) := by
-      rw [valid_iff]
-      unfold combine
-      obtain ⟨a1, a2, a3, a4, a5⟩ := hs
-      obtain ⟨b1, b2, b3, b4, b5⟩ := he
-      refine ⟨a1, b2, ?_, ?_, ?_⟩
-      · simp only; split_ifs <;> omega
-      · simp only; split_ifs <;> omega
-      · simp only; split_ifs <;> omega
-    exact this
-  obtain ⟨hy, hmd⟩ := hdP
-  have e1 : (P .year2 || P .year) = true := by rcases hy with h | h <;> simp [h]
-  have e2 : (P .doy || P .month) = true := by rcases hmd with ⟨h, _⟩ | h <;> simp [h]
-  have e3 : (P .doy || P .day) = true := by rcases hmd with ⟨_, h⟩ | h <;> simp [h]
-  have hm : (stdOf P s).merge (stdOf Q e) =
-      { year := some s.y, month := some s.mo, day := some s.d, hour := some (combine P Q s e).h,
-        minute := if Q .minute || P .minute then some (combine P Q s e).mi else none,
-        second := if Q .second || P .second then some (combine P Q s e).s else none,
-        micro := if Q .millisecond || P .millisecond then some (combine P Q s e).us else none } := by
-    simp only [Std.merge, stdOf, combine, e1, e2, e3, q1, q2, q3, q4, q5, q6, ↓reduceIte,
-      Bool.or_self, Bool.false_eq_true]
-    cases Q .minute <;> cases Q .second <;> cases Q .millisecond <;> cases P .hour <;>
-      cases P .minute <;> cases P .second <;> cases P .millisecond <;> rfl
-  rw [hm]
-  unfold mkDate
-  simp only
-  have : ({ y := s.y, mo := s.mo, d := s.d, h := (some (combine P Q s e).h).getD 0,
-            mi := (if (Q .minute || P .minute) = true then some (combine P Q s e).mi else none).getD 0,
-            s := (if (Q .second || P .second) = true then some (combine P Q s e).s else none).getD 0,
-            us := (if (Q .millisecond || P .millisecond) = true then some (combine P Q s e).us else none).getD 0 } : DateTime)
-      = combine P Q s e := by
-    unfold combine
-    cases Q .minute <;> cases Q .second <;> cases Q .millisecond <;>
-      cases P .minute <;> cases P .second <;> cases P .millisecond <;> rfl
-  simp only [this, hvalid, ↓reduceIte]
-
+theorem endRank_units (Q : TField → Bool) :
+    (Q .hour = true → resolution (endRank Q - 1) = 86400000000) ∧
+    (Q .hour = false → Q .minute = true → resolution (endRank Q - 1) = 3600000000) ∧
+    (Q .hour = false → Q .minute = false → Q .second = true →
+      resolution (endRank Q - 1) = 60000000) := by
+  unfold endRank
+  refine ⟨?_, ?_, ?_⟩
+  · intro h; simp [h, resolution]
+  · intro h1 h2; simp [h1, h2, resolution]
+  · intro h1 h2 h3; simp [h1, h2, h3, resolution]
 
 theorem combine_valid (P Q : TField → Bool) (s e : DateTime) (hvs : Valid s) (hve : Valid e) :
     Valid (combine P Q s e) := by
@@ -105,29 +82,63 @@ theorem combine_valid (P Q : TField → Bool) (s e : DateTime) (hvs : Valid s) (
   unfold combine
   obtain ⟨a1, a2, a3, a4, a5⟩ := hs
   obtain ⟨b1, b2, b3, b4, b5⟩ := he
-  refine ⟨a1, b2, ?_, ?_, ?_⟩
+  refine ⟨a1, ?_, ?_, ?_, ?_⟩
+  · simp only; split_ifs <;> omega
   · simp only; split_ifs <;> omega
   · simp only; split_ifs <;> omega
   · simp only; split_ifs <;> omega
 
-/-- sub-day end fields: the end is `combine`, moved by one day when it precedes the start -/
+theorem mkDate_merge_subday (P Q : TField → Bool) (s e : DateTime) (hvs : Valid s) (hve : Valid e)
+    (hdP : HasDate P) (hq : SubDay Q) :
+    mkDate ((stdOf P s).merge (stdOf Q e)) = .ok (combine P Q s e) := by
+  obtain ⟨q1, q2, q3, q4, q5, _, _⟩ := hq
+  have hvalid : valid (combine P Q s e) = true := combine_valid P Q s e hvs hve
+  obtain ⟨hy, hmd⟩ := hdP
+  have e1 : (P .year2 || P .year) = true := by rcases hy with h | h <;> simp [h]
+  have e2 : (P .doy || P .month) = true := by rcases hmd with ⟨h, _⟩ | h <;> simp [h]
+  have e3 : (P .doy || P .day) = true := by rcases hmd with ⟨_, h⟩ | h <;> simp [h]
+  have hm : (stdOf P s).merge (stdOf Q e) =
+      { year := some s.y, month := some s.mo, day := some s.d,
+        hour := if Q .hour || P .hour then some (combine P Q s e).h else none,
+        minute := if Q .minute || P .minute then some (combine P Q s e).mi else none,
+        second := if Q .second || P .second then some (combine P Q s e).s else none,
+        micro := if Q .millisecond || P .millisecond then some (combine P Q s e).us else none } := by
+    simp only [Std.merge, stdOf, combine, e1, e2, e3, q1, q2, q3, q4, q5, ↓reduceIte,
+      Bool.or_self, Bool.false_eq_true]
+    cases Q .hour <;> cases Q .minute <;> cases Q .second <;> cases Q .millisecond <;>
+      cases P .hour <;> cases P .minute <;> cases P .second <;> cases P .millisecond <;> rfl
+  rw [hm]
+  unfold mkDate
+  simp only
+  have : ({ y := s.y, mo := s.mo, d := s.d,
+            h := (if (Q .hour || P .hour) = true then some (combine P Q s e).h else none).getD 0,
+            mi := (if (Q .minute || P .minute) = true then some (combine P Q s e).mi else none).getD 0,
+            s := (if (Q .second || P .second) = true then some (combine P Q s e).s else none).getD 0,
+            us := (if (Q .millisecond || P .millisecond) = true then some (combine P Q s e).us else none).getD 0 } : DateTime)
+      = combine P Q s e := by
+    unfold combine
+    cases Q .hour <;> cases Q .minute <;> cases Q .second <;> cases Q .millisecond <;>
+      cases P .hour <;> cases P .minute <;> cases P .second <;> cases P .millisecond <;> rfl
+  simp only [this, hvalid, ↓reduceIte]
+
+/-- sub-day end fields: the end is `combine`, moved by the superior resolution of the coarsest
+end field when it precedes the start -/
 theorem coverageOf_subday (path : List Tok) (P Q : TField → Bool) (s e : DateTime)
     (hvs : Valid s) (hve : Valid e) (hdP : HasDate P)
     (hQ : ∀ f, path.contains (.ph (.time true f)) = Q f) (hq : SubDay Q) :
     coverageOf path (stdOf P s) (stdOf Q e) =
       if lt (combine P Q s e) (truncTo P s) then
-        shiftEnd (truncTo P s) (combine P Q s e) (resolution 2)
+        shiftEnd (truncTo P s) (combine P Q s e) (resolution (endRank Q - 1))
       else .ok (some (truncTo P s), some (combine P Q s e)) := by
   have hne : (stdOf Q e).nonEmpty = true := by
-    simp [Std.nonEmpty, stdOf, hq.2.2.2.2.2.1]
+    rcases hq.2.2.2.2.2.1 with h | h | h | h <;> simp [Std.nonEmpty, stdOf, h]
   rw [coverageOf_both path _ _ _ _ (stdOf_nonEmpty P s hdP) (mkDate_stdOf P s hvs hdP) hne
     (mkDate_merge_subday P Q s e hvs hve hdP hq),
     rollover_some path _ _ _ (superior_subday path Q hQ hq)]
 
-theorem resolution_day : resolution 2 = ((usPerDay : Nat) : Int) := by
-  unfold resolution usPerDay; rfl
+/-! ### The end is recovered when it lies within one roll-over unit after the start -/
 
-theorem day_split (D D' U ts te : Nat) (hts : ts < U) (hte : te < U)
+theorem unit_split (D D' U ts te : Nat) (hts : ts < U) (hte : te < U)
     (h1 : D * U + ts ≤ D' * U + te) (h2 : D' * U + te < D * U + ts + U) :
     (te < ts → D' = D + 1) ∧ (ts ≤ te → D' = D) := by
   have key : D' = D ∨ D' = D + 1 := by
@@ -148,82 +159,160 @@ theorem day_split (D D' U ts te : Nat) (hts : ts < U) (hte : te < U)
     · rfl
     · rw [Nat.add_mul] at h2; omega
 
-theorem tod_combine (P Q : TField → Bool) (s e : DateTime)
-    (h : (combine P Q s e).mi = e.mi ∧ (combine P Q s e).s = e.s ∧ (combine P Q s e).us = e.us) :
-    tod (combine P Q s e) = tod e := by
-  unfold tod
-  rw [h.1, h.2.1, h.2.2]
-  rfl
-
-theorem toMicrosN_combine (P Q : TField → Bool) (s e : DateTime)
-    (h : (combine P Q s e).mi = e.mi ∧ (combine P Q s e).s = e.s ∧ (combine P Q s e).us = e.us) :
-    toMicrosN (combine P Q s e) = toDays s.y s.mo s.d * usPerDay + tod e := by
-  rw [toMicrosN_eq, tod_combine P Q s e h]
-  rfl
-
 theorem shiftEnd_eq (st c e : DateTime) (δ : Int) (hsum : toMicros c + δ = toMicros e)
     (hve : Valid e) : shiftEnd st c δ = .ok (some st, some e) := by
   unfold shiftEnd addDelta
   rw [hsum, ofMicros_toMicros e hve]
 
-/-- arithmetic core of the roll-over: with `c` = start date + time of day of `e` -/
-theorem within_day_cases (s e c : DateTime) (hvs : Valid s) (hve : Valid e) (hvc : Valid c)
-    (hc : toMicrosN c = toDays s.y s.mo s.d * usPerDay + tod e)
-    (hle : toMicros s ≤ toMicros e) (hlt : toMicros e < toMicros s + resolution 2) :
-    (lt c s = true ∧ toMicros c + resolution 2 = toMicros e) ∨ (lt c s = false ∧ c = e) := by
-  have hse := toMicrosN_eq s
-  have hee := toMicrosN_eq e
-  have hts := tod_lt s hvs
-  have hte' := tod_lt e hve
-  rw [resolution_day] at hlt ⊢
+/-- arithmetic core of the roll-over for a unit `U` (1 day, 1 hour, 1 minute): `s`, `e`
+decomposed as (number of whole units, rest), `c` = units of `s` + rest of `e` -/
+theorem within_unit_cases (s e c : DateTime) (U As Ae Bs Be : Nat) (hve : Valid e) (hvc : Valid c)
+    (hs : toMicrosN s = As * U + Bs) (he : toMicrosN e = Ae * U + Be)
+    (hc : toMicrosN c = As * U + Be) (hBs : Bs < U) (hBe : Be < U)
+    (hle : toMicros s ≤ toMicros e) (hlt : toMicros e < toMicros s + (U : Int)) :
+    (lt c s = true ∧ toMicros c + (U : Int) = toMicros e) ∨ (lt c s = false ∧ c = e) := by
   unfold toMicros at hle hlt
   have hle' : toMicrosN s ≤ toMicrosN e := by omega
-  have hlt' : toMicrosN e < toMicrosN s + usPerDay := by omega
-  rw [hse, hee] at hle' hlt'
-  obtain ⟨k1, k2⟩ := day_split _ _ usPerDay (tod s) (tod e) hts hte' hle' hlt'
-  by_cases hcase : tod e < tod s
+  have hlt' : toMicrosN e < toMicrosN s + U := by omega
+  rw [hs, he] at hle' hlt'
+  obtain ⟨k1, k2⟩ := unit_split _ _ U Bs Be hBs hBe hle' hlt'
+  by_cases hcase : Be < Bs
   · left
     have hD := k1 hcase
     constructor
     · unfold lt toMicros
       simp only [decide_eq_true_eq]
       apply Int.ofNat_lt.mpr
-      rw [hc, hse]; omega
+      rw [hc, hs]; omega
     · unfold toMicros
-      rw [hc, hee, hD, Nat.add_mul]
+      rw [hc, he, hD, Nat.add_mul]
       push_cast; ring
   · right
     have hD := k2 (by omega)
     have heq : c = e := by
       apply toMicros_injective _ _ hvc hve
       unfold toMicros
-      rw [hc, hee, hD]
+      rw [hc, he, hD]
     constructor
     · rw [heq]
       unfold lt toMicros
       simp only [decide_eq_false_iff_not, not_lt]
       apply Int.ofNat_le.mpr
-      rw [hee, hse]; omega
+      rw [he, hs]; omega
     · exact heq
 
-/-- **the end is recovered across midnight**: a start at the template's resolution, an end
-whose sub-day fields are all written (`combine` has `e`'s time of day), `s ≤ e < s + 1 day`:
-the parsed coverage is exactly `(s, e)` — on the same day or after the roll-over to the next
-day, month or year -/
-theorem coverageOf_subday_within_day (path : List Tok) (P Q : TField → Bool) (s e : DateTime)
+/-- generic form: whenever `s`, `e` and `combine` decompose w.r.t. the roll-over unit -/
+theorem coverageOf_subday_within (path : List Tok) (P Q : TField → Bool) (s e : DateTime)
     (hvs : Valid s) (hve : Valid e) (hdP : HasDate P)
     (hQ : ∀ f, path.contains (.ph (.time true f)) = Q f) (hq : SubDay Q)
-    (hs : truncTo P s = s)
-    (hte : (combine P Q s e).mi = e.mi ∧ (combine P Q s e).s = e.s ∧ (combine P Q s e).us = e.us)
-    (hle : toMicros s ≤ toMicros e) (hlt : toMicros e < toMicros s + resolution 2) :
+    (hs : truncTo P s = s) (U As Ae Bs Be : Nat)
+    (hU : resolution (endRank Q - 1) = (U : Int))
+    (hds : toMicrosN s = As * U + Bs) (hde : toMicrosN e = Ae * U + Be)
+    (hdc : toMicrosN (combine P Q s e) = As * U + Be) (hBs : Bs < U) (hBe : Be < U)
+    (hle : toMicros s ≤ toMicros e) (hlt : toMicros e < toMicros s + (U : Int)) :
     coverageOf path (stdOf P s) (stdOf Q e) = .ok (some s, some e) := by
-  rw [coverageOf_subday path P Q s e hvs hve hdP hQ hq, hs]
+  rw [coverageOf_subday path P Q s e hvs hve hdP hQ hq, hs, hU]
   have hvc := combine_valid P Q s e hvs hve
-  have hc := toMicrosN_combine P Q s e hte
-  rcases within_day_cases s e _ hvs hve hvc hc hle hlt with ⟨h1, h2⟩ | ⟨h1, h2⟩
+  rcases within_unit_cases s e _ U As Ae Bs Be hve hvc hds hde hdc hBs hBe hle hlt with
+    ⟨h1, h2⟩ | ⟨h1, h2⟩
   · rw [h1, if_pos rfl]
     exact shiftEnd_eq s _ e _ h2 hve
   · rw [h1, h2]
     rfl
+
+/-! decompositions of `toMicrosN` w.r.t. day, hour, minute -/
+
+theorem decomp_hour (t : DateTime) :
+    toMicrosN t = (toDays t.y t.mo t.d * 24 + t.h) * 3600000000
+      + ((t.mi * 60 + t.s) * 1000000 + t.us) := by
+  unfold toMicrosN usPerDay; ring
+
+theorem decomp_minute (t : DateTime) :
+    toMicrosN t = ((toDays t.y t.mo t.d * 24 + t.h) * 60 + t.mi) * 60000000
+      + (t.s * 1000000 + t.us) := by
+  unfold toMicrosN usPerDay; ring
+
+theorem rest_hour_lt (t : DateTime) (h : Valid t) :
+    (t.mi * 60 + t.s) * 1000000 + t.us < 3600000000 := by
+  rw [valid_iff] at h; omega
+
+theorem rest_minute_lt (t : DateTime) (h : Valid t) : t.s * 1000000 + t.us < 60000000 := by
+  rw [valid_iff] at h; omega
+
+/-- end with `end_hour` (…): `s ≤ e < s + 1 day` -/
+theorem coverageOf_subday_within_day (path : List Tok) (P Q : TField → Bool) (s e : DateTime)
+    (hvs : Valid s) (hve : Valid e) (hdP : HasDate P)
+    (hQ : ∀ f, path.contains (.ph (.time true f)) = Q f) (hq : SubDay Q) (hhour : Q .hour = true)
+    (hs : truncTo P s = s)
+    (hte : (combine P Q s e).mi = e.mi ∧ (combine P Q s e).s = e.s ∧ (combine P Q s e).us = e.us)
+    (hle : toMicros s ≤ toMicros e) (hlt : toMicros e < toMicros s + 86400000000) :
+    coverageOf path (stdOf P s) (stdOf Q e) = .ok (some s, some e) := by
+  have hch : (combine P Q s e).h = e.h := by simp [combine, hhour]
+  apply coverageOf_subday_within path P Q s e hvs hve hdP hQ hq hs usPerDay
+    (toDays s.y s.mo s.d) (toDays e.y e.mo e.d) (tod s) (tod e)
+  · rw [(endRank_units Q).1 hhour]; unfold usPerDay; rfl
+  · exact toMicrosN_eq s
+  · exact toMicrosN_eq e
+  · rw [toMicrosN_eq]
+    unfold tod
+    rw [hch, hte.1, hte.2.1, hte.2.2]
+    rfl
+  · exact tod_lt s hvs
+  · exact tod_lt e hve
+  · exact hle
+  · unfold usPerDay; exact hlt
+
+/-- end with `end_minute` (…) but no `end_hour`: `s ≤ e < s + 1 hour` -/
+theorem coverageOf_subday_within_hour (path : List Tok) (P Q : TField → Bool) (s e : DateTime)
+    (hvs : Valid s) (hve : Valid e) (hdP : HasDate P)
+    (hQ : ∀ f, path.contains (.ph (.time true f)) = Q f) (hq : SubDay Q)
+    (hhour : Q .hour = false) (hmin : Q .minute = true) (hs : truncTo P s = s)
+    (hte : (combine P Q s e).s = e.s ∧ (combine P Q s e).us = e.us)
+    (hle : toMicros s ≤ toMicros e) (hlt : toMicros e < toMicros s + 3600000000) :
+    coverageOf path (stdOf P s) (stdOf Q e) = .ok (some s, some e) := by
+  have hch : (combine P Q s e).h = s.h := by
+    have := congrArg DateTime.h hs
+    simpa [combine, truncTo, hhour] using this
+  have hcm : (combine P Q s e).mi = e.mi := by simp [combine, hmin]
+  apply coverageOf_subday_within path P Q s e hvs hve hdP hQ hq hs 3600000000
+    (toDays s.y s.mo s.d * 24 + s.h) (toDays e.y e.mo e.d * 24 + e.h)
+    ((s.mi * 60 + s.s) * 1000000 + s.us) ((e.mi * 60 + e.s) * 1000000 + e.us)
+  · rw [(endRank_units Q).2.1 hhour hmin]; rfl
+  · exact decomp_hour s
+  · exact decomp_hour e
+  · rw [decomp_hour, hch, hcm, hte.1, hte.2]
+    rfl
+  · exact rest_hour_lt s hvs
+  · exact rest_hour_lt e hve
+  · exact hle
+  · exact hlt
+
+/-- end with `end_second` (…) but neither `end_hour` nor `end_minute`: `s ≤ e < s + 1 minute` -/
+theorem coverageOf_subday_within_minute (path : List Tok) (P Q : TField → Bool) (s e : DateTime)
+    (hvs : Valid s) (hve : Valid e) (hdP : HasDate P)
+    (hQ : ∀ f, path.contains (.ph (.time true f)) = Q f) (hq : SubDay Q)
+    (hhour : Q .hour = false) (hmin : Q .minute = false) (hsec : Q .second = true)
+    (hs : truncTo P s = s) (hte : (combine P Q s e).us = e.us)
+    (hle : toMicros s ≤ toMicros e) (hlt : toMicros e < toMicros s + 60000000) :
+    coverageOf path (stdOf P s) (stdOf Q e) = .ok (some s, some e) := by
+  have hch : (combine P Q s e).h = s.h := by
+    have := congrArg DateTime.h hs
+    simpa [combine, truncTo, hhour] using this
+  have hcm : (combine P Q s e).mi = s.mi := by
+    have := congrArg DateTime.mi hs
+    simpa [combine, truncTo, hmin] using this
+  have hcs : (combine P Q s e).s = e.s := by simp [combine, hsec]
+  apply coverageOf_subday_within path P Q s e hvs hve hdP hQ hq hs 60000000
+    ((toDays s.y s.mo s.d * 24 + s.h) * 60 + s.mi) ((toDays e.y e.mo e.d * 24 + e.h) * 60 + e.mi)
+    (s.s * 1000000 + s.us) (e.s * 1000000 + e.us)
+  · rw [(endRank_units Q).2.2 hhour hmin hsec]; rfl
+  · exact decomp_minute s
+  · exact decomp_minute e
+  · rw [decomp_minute, hch, hcm, hcs, hte]
+    rfl
+  · exact rest_minute_lt s hvs
+  · exact rest_minute_lt e hve
+  · exact hle
+  · exact hlt
 
 end Template
